@@ -1,4 +1,4 @@
-(* Model of src/idna.c lines 71-367: uv__utf8_decode1_slow, uv__utf8_decode1,
+(* Model of src/idna.c lines 71-375: uv__utf8_decode1_slow, uv__utf8_decode1,
    uv__idna_toascii_label, uv__idna_toascii.
 
    Bytes and C [unsigned] values are [N]; every arithmetic step of an
@@ -11,9 +11,9 @@
    buffer, writes performed so far as (offset, byte), latest first) with the
    bound [de].  Return codes are [Z].
 
-   The model reproduces the code as it is, including the acceptance of
-   ill-formed sequences by the xor test and by the fall-through of
-   [switch (pe - *p)]. *)
+   The model follows the code after commit a779eb0 (every continuation byte
+   checked, truncated forms rejected); the decoder as it was before is kept
+   at the end of the file as [utf8_decode1_before_a779eb0]. *)
 From UV Require Import Lib.Base.
 
 Local Open Scope N_scope.
@@ -27,12 +27,15 @@ Definition UV_EINVAL : Z := (-22)%Z.
 Definition UV_E2BIG : Z := (-7)%Z.
 
 (* ------------------------------------------------------------------ *)
-(* uv__utf8_decode1_slow, lines 71-135                                 *)
+(* uv__utf8_decode1_slow, lines 71-143 (after commit a779eb0)          *)
 (* ------------------------------------------------------------------ *)
 
-(* lines 117-134, after the switch: [rest] is *p at that point *)
+(* after the switch: each of b, c, d must be a continuation byte (in the two
+   shorter forms b and/or c are synthesised as 0x80 | bits of the lead byte);
+   [rest] is *p at that point *)
 Definition utf8_tail (min a b c d : N) (rest : list N) : N * list N :=
-  if negb (N.land 192 (N.lxor (N.lxor b c) d) =? 128) then (UINT_MAX, rest)
+  if negb ((N.land 192 b =? 128) && (N.land 192 c =? 128) && (N.land 192 d =? 128))
+  then (UINT_MAX, rest)
   else
     let b := N.land b 63 in
     let c := N.land c 63 in
@@ -43,29 +46,26 @@ Definition utf8_tail (min a b c d : N) (rest : list N) : N * list N :=
     else if (55296 <=? a) && (a <=? 57343) then (UINT_MAX, rest)
     else (a, rest).
 
-(* [rest] = bytes from *p (already past the lead byte [a]) to pe. *)
 Definition utf8_decode1_slow (rest : list N) (a : N) : N * list N :=
   if 247 <? a then (UINT_MAX, rest)
   else
-    (* case 0: *)
     let case0 := (UINT_MAX, rest) in
-    (* case 1: ... falls through to case 0 *)
     let case1 :=
-      if 191 <? a then
+      if 223 <? a then (UINT_MAX, [])            (* truncated: *p = pe; return -1 *)
+      else if 191 <? a then
         match rest with
         | d :: r => utf8_tail 128 0 128 (N.lor 128 (N.land a 31)) d r
         | _ => case0
         end
       else case0 in
-    (* case 2: ... falls through to case 1 *)
     let case2 :=
-      if 223 <? a then
+      if 239 <? a then (UINT_MAX, [])            (* truncated: *p = pe; return -1 *)
+      else if 223 <? a then
         match rest with
         | c :: d :: r => utf8_tail 2048 0 (N.lor 128 (N.land a 15)) c d r
         | _ => case0
         end
       else case1 in
-    (* default: ... falls through to case 2 *)
     let dflt :=
       if 239 <? a then
         match rest with
@@ -73,7 +73,6 @@ Definition utf8_decode1_slow (rest : list N) (a : N) : N * list N :=
         | _ => case0
         end
       else case2 in
-    (* switch (pe - *p) *)
     match rest with
     | [] => case0
     | [_] => case1
@@ -81,8 +80,8 @@ Definition utf8_decode1_slow (rest : list N) (a : N) : N * list N :=
     | _ => dflt
     end.
 
-(* uv__utf8_decode1, lines 138-149.  [s] = bytes from *p to pe; result =
-   (value, bytes from the new *p to pe).  assert( *p < pe): not called on []. *)
+(* uv__utf8_decode1.  [s] = bytes from *p to pe; result = (value, bytes from the
+   new *p to pe).  assert( *p < pe): not called on []. *)
 Definition utf8_decode1 (s : list N) : N * list N :=
   match s with
   | [] => (UINT_MAX, [])
@@ -90,7 +89,7 @@ Definition utf8_decode1 (s : list N) : N * list N :=
   end.
 
 (* ------------------------------------------------------------------ *)
-(* uv__idna_toascii_label, lines 152-315                               *)
+(* uv__idna_toascii_label, lines 160-323                               *)
 (* ------------------------------------------------------------------ *)
 
 (* alphabet[t] of "abcdefghijklmnopqrstuvwxyz0123456789" *)
@@ -100,7 +99,7 @@ Section Writer.
 Variable W : Type.
 Variable put : N -> W -> W.      (* if ( *d < de) *( *d)++ = c; *)
 
-(* lines 177-187 *)
+(* lines 185-195 *)
 Fixpoint count_loop (fuel : nat) (s : list N) (h todo : N) : option (N * N) :=
   match s, fuel with
   | [], _ => Some (h, todo)
@@ -112,7 +111,7 @@ Fixpoint count_loop (fuel : nat) (s : list N) (h todo : N) : option (N * N) :=
       else count_loop f s' h (u32 (todo + 1))
   end.
 
-(* lines 200-212 *)
+(* lines 208-220 *)
 Fixpoint ascii_loop (fuel : nat) (s : list N) (x h : N) (w : W) : W :=
   match s, fuel with
   | [], _ => w
@@ -126,7 +125,7 @@ Fixpoint ascii_loop (fuel : nat) (s : list N) (x h : N) (w : W) : W :=
         if x =? h then w else ascii_loop f s' x h w
   end.
 
-(* lines 231-238 *)
+(* lines 239-246 *)
 Fixpoint min_loop (fuel : nat) (s : list N) (n m : N) : N :=
   match s, fuel with
   | [], _ => m
@@ -136,7 +135,7 @@ Fixpoint min_loop (fuel : nat) (s : list N) (n m : N) : N :=
       min_loop f s' n (if (n <=? c) && (c <? m) then c else m)
   end.
 
-(* lines 261-287: for (k = 36, q = delta; ; k += 36) {...} then
+(* lines 269-295: for (k = 36, q = delta; ; k += 36) {...} then
    *d++ = alphabet[q].  q shrinks by a factor >= 10 per round. *)
 Fixpoint digits_loop (fuel : nat) (k q bias : N) (w : W) : W :=
   match fuel with
@@ -154,7 +153,7 @@ Fixpoint digits_loop (fuel : nat) (k q bias : N) (w : W) : W :=
         digits_loop f (u32 (k + 36)) q' bias (put (alphabet t') w)
   end.
 
-(* line 302: for (bias = 0; delta > 35 * 26 / 2; bias += 36) delta /= 35; *)
+(* line 310: for (bias = 0; delta > 35 * 26 / 2; bias += 36) delta /= 35; *)
 Fixpoint adapt_loop (fuel : nat) (bias delta : N) : N * N :=
   match fuel with
   | O => (bias, delta)
@@ -164,7 +163,7 @@ Fixpoint adapt_loop (fuel : nat) (bias delta : N) : N * N :=
 
 Record pst := mkP { p_delta : N; p_h : N; p_bias : N; p_first : bool; p_todo : N }.
 
-(* lines 250-308; None in the first component = return UV_E2BIG *)
+(* lines 258-316; None in the first component = return UV_E2BIG *)
 Fixpoint enc_loop (fuel : nat) (s : list N) (n : N) (st : pst) (w : W) : option pst * W :=
   match s, fuel with
   | [], _ => (Some st, w)
@@ -186,7 +185,7 @@ Fixpoint enc_loop (fuel : nat) (s : list N) (n : N) (st : pst) (w : W) : option 
         enc_loop f s' n (mkP 0 h bias false (usub (p_todo st) 1)) w
   end.
 
-(* lines 227-312: while (todo > 0) *)
+(* lines 235-320: while (todo > 0) *)
 Fixpoint outer_loop (fuel : nat) (s : list N) (n : N) (st : pst) (w : W) : Z * W :=
   if p_todo st =? 0 then (0%Z, w)
   else
@@ -224,7 +223,7 @@ Definition idna_toascii_label (s : list N) (w : W) : Z * W :=
   end.
 
 (* ------------------------------------------------------------------ *)
-(* uv__idna_toascii, lines 318-360 (everything before the final NUL)   *)
+(* uv__idna_toascii, lines 326-368 (everything before the final NUL)   *)
 (* ------------------------------------------------------------------ *)
 
 Definition is_dot (c : N) : bool :=
@@ -234,7 +233,7 @@ Definition is_dot (c : N) : bool :=
 Fixpoint toascii_loop (fuel : nat) (lab : list N) (si : list N) (w : W) : Z * W :=
   match si, fuel with
   | [], _ | _, O =>
-      (* lines 355-360 *)
+      (* lines 363-368 *)
       match lab with
       | [] => (0%Z, w)
       | _ => idna_toascii_label (rev lab) w
@@ -263,7 +262,7 @@ Definition put_bounded (de : N) (c : N) (w : cursor) : cursor :=
   let (d, log) := w in
   if d <? de then (d + 1, (d, c) :: log) else w.
 
-(* uv__idna_toascii(s, se, d, de) with de - d = [de]; lines 318-367. *)
+(* uv__idna_toascii(s, se, d, de) with de - d = [de]; lines 326-375. *)
 Definition idna_toascii (s : list N) (de : N) : Z * cursor :=
   match s with
   | [] => (UV_EINVAL, (0, []))
@@ -282,15 +281,14 @@ Definition idna_toascii_label_b (s : list N) (de : N) : Z * cursor :=
 Definition written (w : cursor) : list N := map snd (rev (snd w)).
 
 (* ------------------------------------------------------------------ *)
-(* The decoder after notes/C18_fix_utf8_decode.diff (not the code of   *)
-(* the current tree; used to show what the repair buys).  Two changes: *)
-(* each of b, c, d must be a continuation byte, and a lead byte that    *)
-(* announces more bytes than are left is rejected ( *p = pe) instead of *)
-(* being re-read as a shorter form.                                     *)
+(* History: the decoder before commit a779eb0 (one xor for the three  *)
+(* continuation bytes, truncated forms re-read as shorter ones); kept  *)
+(* for the witnesses of the old defect.  Was: lines 71-135                                 *)
 (* ------------------------------------------------------------------ *)
-Definition utf8_tail_fixed (min a b c d : N) (rest : list N) : N * list N :=
-  if negb ((N.land 192 b =? 128) && (N.land 192 c =? 128) && (N.land 192 d =? 128))
-  then (UINT_MAX, rest)
+
+(* lines 117-134, after the switch: [rest] is *p at that point *)
+Definition utf8_tail_before_a779eb0 (min a b c d : N) (rest : list N) : N * list N :=
+  if negb (N.land 192 (N.lxor (N.lxor b c) d) =? 128) then (UINT_MAX, rest)
   else
     let b := N.land b 63 in
     let c := N.land c 63 in
@@ -301,33 +299,37 @@ Definition utf8_tail_fixed (min a b c d : N) (rest : list N) : N * list N :=
     else if (55296 <=? a) && (a <=? 57343) then (UINT_MAX, rest)
     else (a, rest).
 
-Definition utf8_decode1_slow_fixed (rest : list N) (a : N) : N * list N :=
+(* [rest] = bytes from *p (already past the lead byte [a]) to pe. *)
+Definition utf8_decode1_slow_before_a779eb0 (rest : list N) (a : N) : N * list N :=
   if 247 <? a then (UINT_MAX, rest)
   else
+    (* case 0: *)
     let case0 := (UINT_MAX, rest) in
+    (* case 1: ... falls through to case 0 *)
     let case1 :=
-      if 223 <? a then (UINT_MAX, [])            (* truncated: *p = pe *)
-      else if 191 <? a then
+      if 191 <? a then
         match rest with
-        | d :: r => utf8_tail_fixed 128 0 128 (N.lor 128 (N.land a 31)) d r
+        | d :: r => utf8_tail_before_a779eb0 128 0 128 (N.lor 128 (N.land a 31)) d r
         | _ => case0
         end
       else case0 in
+    (* case 2: ... falls through to case 1 *)
     let case2 :=
-      if 239 <? a then (UINT_MAX, [])            (* truncated: *p = pe *)
-      else if 223 <? a then
+      if 223 <? a then
         match rest with
-        | c :: d :: r => utf8_tail_fixed 2048 0 (N.lor 128 (N.land a 15)) c d r
+        | c :: d :: r => utf8_tail_before_a779eb0 2048 0 (N.lor 128 (N.land a 15)) c d r
         | _ => case0
         end
       else case1 in
+    (* default: ... falls through to case 2 *)
     let dflt :=
       if 239 <? a then
         match rest with
-        | b :: c :: d :: r => utf8_tail_fixed 65536 (N.land a 7) b c d r
+        | b :: c :: d :: r => utf8_tail_before_a779eb0 65536 (N.land a 7) b c d r
         | _ => case0
         end
       else case2 in
+    (* switch (pe - *p) *)
     match rest with
     | [] => case0
     | [_] => case1
@@ -335,8 +337,11 @@ Definition utf8_decode1_slow_fixed (rest : list N) (a : N) : N * list N :=
     | _ => dflt
     end.
 
-Definition utf8_decode1_fixed (s : list N) : N * list N :=
+(* uv__utf8_decode1, lines 138-149.  [s] = bytes from *p to pe; result =
+   (value, bytes from the new *p to pe).  assert( *p < pe): not called on []. *)
+Definition utf8_decode1_before_a779eb0 (s : list N) : N * list N :=
   match s with
   | [] => (UINT_MAX, [])
-  | a :: rest => if a <? 128 then (a, rest) else utf8_decode1_slow_fixed rest a
+  | a :: rest => if a <? 128 then (a, rest) else utf8_decode1_slow_before_a779eb0 rest a
   end.
+
